@@ -130,7 +130,6 @@ func (m *machine) registerEnvReplacements() {
 		eb + "NewBus":  "NewStubBus",
 		eb + "BufSize": "BusBufSize",
 		eb + "Name":    "BusName",
-		vs + "NewBus":  "NewStubBus",
 	} {
 		m.replace(name, repl)
 	}
